@@ -72,13 +72,13 @@ def run_case(c):
         t = T[c["ti"] % len(T)]
         tp = tproj(t)
         for p in range(c["lo"], c["hi"]):
-            for mf in (12, 24):
+            for mf in (12, 24, 12):
                 r = call("find_frets", {"p": p, "maxfret": mf}, lambda: [opt(x) for x in t.find_frets(Note().from_int(p), mf)])
                 r["tuning"] = tp
                 R.append(r)
         for s in range(-1, tp["strings"] + 1):
             for f in (-1, 0, 1, 11, 12, 13, 24, 25):
-                for mf in (12, 24):
+                for mf in (12, 24, 12):      # the narrower limit again after the wider one has been answered
                     r = call("get_Note", {"s": s, "f": f, "maxfret": mf}, lambda: integer(int(t.get_Note(s, f, mf))))
                     r["tuning"] = tp
                     R.append(r)
@@ -167,6 +167,23 @@ def run_case(c):
                 R.append(r)
                 r = call("tab_Track", {"track": 1, "width": w, "tuning_via": way}, lambda: lex_tab(tablature.from_Track(comp2.tracks[0], w + 20), btp["strings"]))
                 r["prog"], r["tuning"] = p, btp
+                r["tab"] = r["out"] if r["ok"] else {"blocks": []}
+                r["out"] = 0
+                R.append(r)
+        # the same music with every note carrying the string / fret position a tuning hands out with its notes
+        # (the lowest string that can sound it: notes of one chord often meet on one string)
+        if c.get("bass") or len(p["tracks"][0]["bars"]) <= 2:
+            comp3 = mk_composition(p)
+            for b3 in comp3.tracks[0].bars:
+                for e3 in b3.bar:
+                    for nt in (e3[2] or []):
+                        fr = tun.find_frets(nt)
+                        ss = [i for i, x in enumerate(fr) if x is not None]
+                        if ss:
+                            nt.string, nt.fret = ss[0], fr[ss[0]]
+            for bi, b in enumerate(t0["bars"][:2]):
+                r = call("tab_Bar", {"track": 1, "width": w, "positioned": True}, lambda: lex_tab(tablature.from_Bar(comp3.tracks[0].bars[bi], w), tp["strings"]))
+                r["prog"], r["tuning"] = dict(p, tracks=[dict(t0, bars=[b])]), tp
                 r["tab"] = r["out"] if r["ok"] else {"blocks": []}
                 r["out"] = 0
                 R.append(r)
